@@ -35,7 +35,7 @@ from docutils.transforms.components import Filter
 from docutils.utils import Reporter, SystemMessage, new_document
 from docutils.utils.code_analyzer import Lexer, LexerError, NumberLines
 from markdown_it import MarkdownIt
-from markdown_it.common.utils import escapeHtml
+from markdown_it.common.utils import escapeHtml, unescapeAll
 from markdown_it.renderer import RendererProtocol
 from markdown_it.token import Token
 from markdown_it.tree import SyntaxTreeNode
@@ -777,6 +777,10 @@ class DocutilsRenderer(RendererProtocol):
                 return self.render_directive(
                     token, name, arguments, additional_options=options
                 )
+
+        # backslash escapes and character references are active in an info string,
+        # markdown-it leaves resolving them to the renderer (see RendererHTML.fence)
+        name = (unescapeAll(token.info or "").split(maxsplit=1) or [""])[0]
 
         if not name and self.sphinx_env is not None:
             # use the current highlight setting, via the ``highlight`` directive,
